@@ -52,6 +52,7 @@ class Verifier:
         self.cur_block = None
         self.anc = None
         self.notes = []     # assumptions used (strings)
+        self.ext_globals = {}
         self.global_hyps = []
 
     # -------------------------------------------------------------- heap sorts
@@ -77,6 +78,8 @@ class Verifier:
         if k == 'alloc':
             return I
         if k == 'g':
+            if (key[1], key[2]) in self.ext_globals:
+                return w.sort(self.ext_globals[(key[1], key[2])])
             for g in w.prog.packages[key[1]]['globals']:
                 if g['name'] == key[2]:
                     return w.sort(w.prog.types[g['type']]['elem'])
@@ -86,6 +89,8 @@ class Verifier:
         raise OutOfSubset('heap key ' + str(key))
 
     def global_type(self, pkg, name):
+        if (pkg, name) in self.ext_globals:
+            return self.ext_globals[(pkg, name)]
         for g in self.world.prog.packages[pkg]['globals']:
             if g['name'] == name:
                 return self.world.prog.types[g['type']]['elem']
